@@ -71,11 +71,11 @@ Ltac fin := first [reflexivity | (cbn; match goal with |- context [is_string_ty 
 Ltac cs src :=
   let gt := fresh "gt" in let g := fresh "g" in let t0 := fresh "t0" in let p := fresh "p" in
   destruct src as [[gt g]|]; [|reflexivity];
-  destruct gt as [? ?|t0|?|? ?|? ?|?|];
+  destruct gt as [? ?|t0|?|? ?|? ?|?| |?];
   [ destruct g; fin
   | destruct g as [?| |p|?|?|?| |?|?| |? ?]; try reflexivity;
     [ destruct t0; fin | destruct t0; destruct p; fin ]
-  | destruct g; fin | destruct g; fin | destruct g; fin | destruct g; fin | destruct g; fin ].
+  | destruct g; fin | destruct g; fin | destruct g; fin | destruct g; fin | destruct g; fin | destruct g; fin ].
 
 Lemma g_encode_list v e src : g_encode v (TList e) src =
   match as_seq src with
